@@ -24,7 +24,7 @@ ASSUMPTIONS = ['ref/interp.py implements consensus (no policy flags); opcodes fo
 SHARDS = {'quick': 16, 'thorough': 16}
 WALL_CAP = {'quick': 600, 'thorough': 3000}
 
-ALPHABET = ['', '01', '02', '03', '81', '00', '80', '7f', 'ff00', '0100', '0102030405', '11' * 20]
+ALPHABET = ['', '01', '02', '03', '81', '00', '80', '7f', 'ff00', '0100', '0102030405', '11' * 20, '0080']
 
 # opcode -> arity used for the exhaustive part (stack depth explored = 0..arity+1)
 UNARY = ['OP_VERIFY', 'OP_IFDUP', 'OP_DROP', 'OP_DUP', 'OP_SIZE', 'OP_1ADD', 'OP_1SUB', 'OP_NEGATE', 'OP_ABS',
@@ -304,7 +304,9 @@ def program_strategy(ctx):
         ctx.exclude('program.opcode.' + o, 0)
     ops = st.sampled_from([interp.OP[n] for n in names])
     push = st.one_of(st.sampled_from([0x00, 0x4f, 0x51, 0x52, 0x53, 0x54, 0x60]),
-                     st.sampled_from(ALPHABET[1:]), st.binary(min_size=1, max_size=5).map(bytes.hex))
+                     st.sampled_from(ALPHABET[1:]), st.binary(min_size=1, max_size=5).map(bytes.hex),
+                     # zeros and negative zeros of several lengths (false for every truth test, whatever their length)
+                     st.sampled_from(['0000', '000080', '00000080', '00' * 19 + '80', '00' * 20, '0000000000']))
     # every other opcode byte now and then: reserved, disabled, unknown, upgradable NOPs, alt stack, OP_CODESEPARATOR
     # (consensus fails some of them only when executed, others wherever they appear)
     listed = set(interp.OP[n] for n in UNARY + BINARY + TERNARY + QUAD + HEX)
